@@ -199,19 +199,30 @@ fn family(out: &mut Out, rng: &mut R, k_budget: &mut usize) {
             if !any { let d = rng.gen_range(0..k); addss[d].push(a.clone()); }
         }
     }
-    let ops: Vec<Pset> = match addss.iter().map(|a| pd::build(&t, a)).collect::<Option<Vec<_>>>() { Some(o) => o, None => { out.s("harness_description_applies", false, || format!("{:?}", addss.iter().map(|a| pd::adds_text(a)).collect::<Vec<_>>())); return; } };
     out.count(&format!("family.k{}", k));
+    let nk = if *k_budget > 0 { 3 } else { 0 };
+    *k_budget = k_budget.saturating_sub(nk);
+    check_family(out, rng, &t, &addss, nk);
+}
+
+/// a family of descendants (each given by its additions to `from_tx(t)`): ALL merge orders and
+/// bracketings on the real code give the same serialized PSET, nothing of any operand is lost
+/// (whole family and every ordered pair), nothing is invented, the id is kept; `nk` sampled
+/// expressions go to the correspondence stream
+fn check_family(out: &mut Out, rng: &mut R, t: &Transaction, addss: &[Vec<Add>], nk: usize) {
+    let k = addss.len();
+    let ops: Vec<Pset> = match addss.iter().map(|a| pd::build(t, a)).collect::<Option<Vec<_>>>() { Some(o) => o, None => { out.s("harness_description_applies", false, || format!("{:?}", addss.iter().map(|a| pd::adds_text(a)).collect::<Vec<_>>())); return; } };
     // all orders, all groupings
     let exprs = expressions(k);
     let mut results: Vec<(String, Result<Vec<u8>, String>)> = vec![];
     for e in &exprs {
         let r = std::panic::catch_unwind(std::panic::AssertUnwindSafe(|| eval_real(&ops, e)));
         match r {
-            Err(_) => { out.s("merge_no_panic", false, || format!("{} {} {:?}", hex(&serialize(&t)), e, addss.iter().map(|a| pd::adds_text(a)).collect::<Vec<_>>())); return; }
+            Err(_) => { out.s("merge_no_panic", false, || format!("{} {} {:?}", hex(&serialize(t)), e, addss.iter().map(|a| pd::adds_text(a)).collect::<Vec<_>>())); return; }
             Ok(r) => { out.s("merge_no_panic", true, String::new); results.push((e.clone(), r.map(|p| serialize(&p)))); }
         }
     }
-    let desc = |e: &str| format!("pset.mergex {} {} {}", hex(&serialize(&t)), e, addss.iter().map(|a| pd::adds_text(a)).collect::<Vec<_>>().join(" "));
+    let desc = |e: &str| format!("pset.mergex {} {} {}", hex(&serialize(t)), e, addss.iter().map(|a| pd::adds_text(a)).collect::<Vec<_>>().join(" "));
     let first = results[0].1.clone();
     out.s("merge_family_succeeds", first.is_ok(), || format!("{} -> {:?}", desc(&results[0].0), first.as_ref().err()));
     for (e, r) in &results[1..] {
@@ -250,12 +261,146 @@ fn family(out: &mut Out, rng: &mut R, k_budget: &mut usize) {
             out.s("merge_keeps_id", uid_s(&m) == uid_s(&ops[i]), || format!("{} uid {} result {}", desc(&format!("{}{}m", i, j)), uid_s(&ops[i]), uid_s(&m)));
         }
     }
-    // correspondence on a few expressions
-    let nk = if *k_budget > 0 { 3.min(exprs.len()) } else { 0 };
-    for _ in 0..nk {
-        let e = &exprs[rng.gen_range(0..exprs.len())];
-        k_mergex(out, &t, &addss, e);
-        *k_budget = k_budget.saturating_sub(1);
+    // correspondence: every expression of a small family, otherwise a sample
+    if nk >= exprs.len() {
+        for e in &exprs { k_mergex(out, t, addss, e); }
+    } else {
+        for _ in 0..nk {
+            let e = &exprs[rng.gen_range(0..exprs.len())];
+            k_mergex(out, t, addss, e);
+        }
+    }
+}
+
+/// (found missing by seeded change C14-w3m1) optional fields that are PRESENT BUT EMPTY: the ancestor
+/// has neither final_script_sig nor final_script_witness; one descendant sets both to the
+/// placeholder shape `Input::from_txin` produces for an unsigned input (`Some(Script::new())`,
+/// `Some(vec![])`), another adds something else (a partial sig, a tap script sig, nothing), a
+/// third repeats the placeholder (identical addition) or adds yet another field. Also: only one
+/// of the two; empty redeem/witness scripts on inputs and outputs; empty proprietary / unknown
+/// values at global, input and output level. First present wins: the result carries the empty
+/// field, in every direction and grouping.
+fn placeholder_families(out: &mut Out, rng: &mut R) {
+    let t = loop { let t = quantifier(rng); if !t.input.is_empty() && !t.output.is_empty() && t.input.len() <= 3 && t.output.len() <= 3 { break t; } };
+    let mut base: Vec<Add> = vec![];
+    for j in 0..t.input.len() {
+        base.push(Add::unset(&format!("i{}", j), "final_script_sig"));
+        base.push(Add::unset(&format!("i{}", j), "final_script_witness"));
+        if rng.gen_bool(0.5) { base.push(Add::unset(&format!("i{}", j), "sequence")); }
+    }
+    let empty_stack = pd::se(&Vec::<Vec<u8>>::new());
+    for variant in 0..7 {
+        let il = format!("i{}", rng.gen_range(0..t.input.len()));
+        let ol = format!("o{}", rng.gen_range(0..t.output.len()));
+        let placeholder: Vec<Add> = match variant {
+            0 => vec![Add::new(&il, "final_script_sig", &[], &[]), Add::new(&il, "final_script_witness", &[], &empty_stack)],
+            1 => vec![Add::new(&il, "final_script_sig", &[], &[])],
+            2 => vec![Add::new(&il, "final_script_witness", &[], &empty_stack)],
+            3 => vec![Add::new(&il, "redeem_script", &[], &[]), Add::new(&il, "witness_script", &[], &[])],
+            4 => vec![Add::new(&ol, "redeem_script", &[], &[]), Add::new(&ol, "witness_script", &[], &[])],
+            5 => vec![Add::new("g", "proprietary", &pd::prop_key_gen(rng), &[]), Add::new(&il, "proprietary", &pd::prop_key_gen(rng), &[]), Add::new(&ol, "proprietary", &pd::prop_key_gen(rng), &[])],
+            _ => vec![Add::new("g", "unknown", &pd::unknown_key_gen(rng), &[]), Add::new(&il, "unknown", &pd::unknown_key_gen(rng), &[]), Add::new(&ol, "unknown", &pd::unknown_key_gen(rng), &[])],
+        };
+        for other in 0..3 {
+            let b_add: Vec<Add> = match other {
+                0 => { let (k, v) = pd::field_value(rng, 'i', "partial_sigs"); vec![Add::new(&il, "partial_sigs", &k, &v)] }
+                1 => { let (k, v) = pd::field_value(rng, 'i', "tap_script_sigs"); vec![Add::new(&il, "tap_script_sigs", &k, &v)] }
+                _ => vec![],
+            };
+            let mut a = base.clone();
+            a.extend(placeholder.clone());
+            let mut b = base.clone();
+            b.extend(b_add.clone());
+            let mut addss = vec![a.clone(), b];
+            match rng.gen_range(0..3) {
+                0 => {}
+                1 => { addss.push(a.clone()); } // identical addition
+                _ => { let mut c = base.clone(); c.push(Add::new(&il, "sighash_type", &[], &le32(1))); if rng.gen_bool(0.5) { c.extend(placeholder.clone()); } addss.push(c); }
+            }
+            out.count(&format!("placeholder.family.variant{}.k{}", variant, addss.len()));
+            out.count("placeholder.families");
+            // the placeholder items must be in every merge of the family
+            let wanted: Vec<String> = placeholder.iter().map(|p| if p.key.is_empty() { format!("{}=", p.field) } else { format!("{}:", hex(&p.key)) }).collect();
+            let ops: Option<Vec<Pset>> = addss.iter().map(|x| pd::build(&t, x)).collect();
+            if let Some(ops) = ops {
+                for e in expressions(addss.len()) {
+                    let r = real_mergex(&ops, &e);
+                    for w in &wanted {
+                        out.s("merge_keeps_present_but_empty", r.starts_with("ok ") && r.contains(w.as_str()), || format!("pset.mergex {} {} {} : result lacks the present-but-empty item {} ({})", hex(&serialize(&t)), e, addss.iter().map(|x| pd::adds_text(x)).collect::<Vec<_>>().join(" "), w, &r[..r.len().min(50)]));
+                    }
+                }
+            }
+            let n = addss.len();
+            check_family(out, rng, &t, &addss, if n == 2 { 2 } else { 4 });
+        }
+    }
+}
+
+/// (found missing by seeded change C14-w3m2) the same transaction with different marker bits in the raw
+/// `previous_output_index`: `from_tx`/`from_txin` set bit 31 on an issuance input and bit 30 on a
+/// pegin, an input built by hand (`from_prevout` + issuance fields) has neither; `unique_id`
+/// masks bit 31 (the issuance is read from the fields) while bit 30 IS the pegin flag. Whenever
+/// the two unique ids are equal on the real code the merge must go through in both directions,
+/// keep the id and every field of both (the raw index is the receiver's); otherwise it is refused.
+fn index_bits(out: &mut Out, rng: &mut R, kind: gen::InKind) {
+    let mut t = gen::tx_wide(rng, 0, 1);
+    if rng.gen_bool(0.4) { t.input.push(gen::txin(rng, gen::InKind::Plain, false)); }
+    let j = t.input.len();
+    let mut inp = gen::txin(rng, kind, true);
+    if inp.previous_output.vout == (1 << 30) - 1 { inp.previous_output.vout = rng.gen_range(0..1000); } // keep clear of the IDX-3FFFFFFF class
+    t.input.push(inp);
+    let loc = format!("i{}", j);
+    let a_pset = match pd::build(&t, &[]) { Some(p) => p, None => return };
+    let raw = a_pset.inputs()[j].previous_output_index;
+    for (bi, mask) in [1u32 << 31, 1 << 30, (1 << 31) | (1 << 30)].iter().enumerate() {
+        let raw_b = raw ^ mask;
+        let (k1, v1) = pd::field_value(rng, 'i', "partial_sigs");
+        let (k2, v2) = pd::field_value(rng, 'i', "tap_script_sigs");
+        let a = vec![Add::new(&loc, "partial_sigs", &k1, &v1)];
+        // the hand-built shape: no finalisation placeholders, no sequence
+        let mut b = vec![Add::new(&loc, "previous_output_index", &[], &le32(raw_b)), Add::new(&loc, "tap_script_sigs", &k2, &v2)];
+        if rng.gen_bool(0.5) { for f in ["sequence", "final_script_sig", "final_script_witness"] { b.push(Add::unset(&loc, f)); } }
+        let c = vec![Add::new(&loc, "sighash_type", &[], &le32(0x81))];
+        let (pa, pb) = match (pd::build(&t, &a), pd::build(&t, &b)) { (Some(x), Some(y)) => (x, y), _ => { out.s("harness_description_applies", false, || pd::adds_text(&b)); continue; } };
+        let same = matches!((pa.unique_id(), pb.unique_id()), (Ok(x), Ok(y)) if x == y);
+        out.count(&format!("indexbits.{:?}.bits{}.{}", kind, ["31", "30", "31+30"][bi], if same { "same_id" } else { "different_id" }));
+        out.count("indexbits.pairs");
+        let addss = vec![a.clone(), b.clone(), c.clone()];
+        let desc = |e: &str| format!("pset.mergex {} {} {}", hex(&serialize(&t)), e, addss.iter().map(|x| pd::adds_text(x)).collect::<Vec<_>>().join(" "));
+        let strip_idx = |dump: &str| -> BTreeMap<(String, String, String), String> { let mut m = items(dump); m.retain(|k, _| k.1 != "previous_output_index"); m };
+        let mut dumps: Vec<BTreeMap<(String, String, String), String>> = vec![];
+        for e in ["01m", "10m", "01m2m", "012mm", "10m2m", "21m0m", "201mm", "02m1m"] {
+            let r = match k_mergex(out, &t, &addss, e) { Some(r) => r, None => continue };
+            out.s("merge_no_panic", r != "panic", || desc(e));
+            if !same {
+                // a different pegin flag is a different transaction
+                out.s("merge_id_gate", r == "err UniqueIdMismatch", || format!("{} -> {}", desc(e), &r[..r.len().min(80)]));
+                continue;
+            }
+            out.s("merge_same_id_different_index_bits_succeeds", r.starts_with("ok "), || format!("{} : operands have the same unique id {} but merge returned {}", desc(e), uid_s(&pa), &r[..r.len().min(80)]));
+            if !r.starts_with("ok ") { continue; }
+            out.s("merge_keeps_id", r.ends_with(&format!(" {}", uid_s(&pa))), || format!("{} : id {} -> {}", desc(e), uid_s(&pa), r.rsplit(' ').next().unwrap_or("")));
+            let dump = r[3..].rsplit_once(' ').map(|x| x.0).unwrap_or("");
+            let mi = items(dump);
+            // the raw index is that of the receiving (left-most) operand
+            let first: usize = e.chars().next().unwrap() as usize - 48;
+            let recv_idx = if first == 1 { raw_b } else { raw };
+            out.s("merge_raw_index_is_receivers", mi.get(&(format!("I{}", j), "previous_output_index".to_string(), String::new())) == Some(&hex(&le32(recv_idx))), || format!("{} : expected raw index {:08x}", desc(e), recv_idx));
+            // every field of every operand that takes part
+            for (d, x) in addss.iter().enumerate() {
+                if !e.contains(char::from(b'0' + d as u8)) { continue; }
+                let op = pd::build(&t, x).unwrap();
+                for (key, val) in &strip_idx(&pd::dump_pset(&op)) {
+                    let kept = match mi.get(key) { Some(v) => combined(&key.1) || v == val, None => false };
+                    out.s("merge_keeps_all", kept, || format!("{} : operand {} has {:?}={} result has {:?}", desc(e), d, key, val, mi.get(key)));
+                }
+            }
+            if e.len() > 3 { dumps.push(strip_idx(dump)); }
+        }
+        // all orders/groupings of the three agree up to the raw index
+        for d in dumps.iter().skip(1) {
+            out.s("merge_order_insensitive", *d == dumps[0], || format!("{} : results differ beyond the raw index", desc("(three operands)")));
+        }
     }
 }
 
@@ -481,11 +626,49 @@ fn corners(out: &mut Out, rng: &mut R) {
     k_mergex(out, &t, &[a.clone(), a], "01m");
 }
 
+/// the crate's own construction path: an issuance PSET built by hand (`new_v2`, `Input::from_prevout`
+/// + explicit issuance amounts, `Output::new_explicit`: no marker bit) against
+/// `from_tx(a.extract_tx())` (marker bit 31 set by `from_txin`) carrying a signature
+fn hand_built_vs_from_tx(out: &mut Out, rng: &mut R) {
+    use elements::pset::{Input, Output};
+    let mut a = Pset::new_v2();
+    let mut inp = Input::from_prevout(elements::OutPoint::new(elements::Txid::from_byte_array(gen::arr32(rng)), rng.gen_range(0..1000)));
+    match rng.gen_range(0..3) {
+        0 => inp.issuance_value_amount = Some(rng.gen_range(1..1000)),
+        1 => inp.issuance_inflation_keys = Some(rng.gen_range(1..1000)),
+        _ => { inp.issuance_value_amount = Some(rng.gen_range(1..1000)); inp.issuance_inflation_keys = Some(1); }
+    }
+    if rng.gen_bool(0.5) { inp.issuance_asset_entropy = Some(gen::arr32(rng)); }
+    a.add_input(inp);
+    a.add_output(Output::new_explicit(gen::script(rng), rng.gen_range(0..1000), gen::asset_id(rng), None));
+    let tx = match a.extract_tx() { Ok(t) => t, Err(_) => return };
+    let mut b = Pset::from_tx(tx);
+    let (k, v) = pd::field_value(rng, 'i', "partial_sigs");
+    pd::set_input(&mut b.inputs_mut()[0], "partial_sigs", &k, Some(&v));
+    let detail = || format!("hand-built {} vs from_tx(extract_tx) {}", pd::dump_pset(&a), pd::dump_pset(&b));
+    out.count("indexbits.hand_built_vs_from_tx");
+    out.s("merge_corner_ids_equal", a.unique_id().is_ok() && a.unique_id().ok() == b.unique_id().ok() && a.inputs()[0].previous_output_index != b.inputs()[0].previous_output_index, detail);
+    for (x, y) in [(&a, &b), (&b, &a)] {
+        let mut m = x.clone();
+        let r = Out::guard(|| match m.merge(y.clone()) { Ok(()) => "ok".into(), Err(e) => format!("err {}", pd::err_name(&e)) });
+        out.s("merge_same_id_different_index_bits_succeeds", r == "ok", || format!("{} -> {}", detail(), r));
+        if r == "ok" {
+            out.s("merge_keeps_id", uid_s(&m) == uid_s(x), detail);
+            out.s("merge_keeps_all", m.inputs()[0].partial_sigs.len() == 1 && m.inputs()[0].issuance_value_amount == a.inputs()[0].issuance_value_amount && m.inputs()[0].issuance_inflation_keys == a.inputs()[0].issuance_inflation_keys, detail);
+        }
+    }
+}
+
 pub fn run(rng: &mut R, out: &mut Out) {
     c01::cfg_line(out);
     let scale = if out.tier_thorough { 10 } else { 1 };
     xpubs(out, rng);
     for _ in 0..3 * scale { corners(out, rng); }
+    for _ in 0..2 * scale { placeholder_families(out, rng); }
+    for _ in 0..4 * scale { hand_built_vs_from_tx(out, rng); }
+    for _ in 0..2 * scale {
+        for kind in [gen::InKind::Issuance, gen::InKind::Reissuance, gen::InKind::PeginIssuance, gen::InKind::Plain, gen::InKind::Pegin] { index_bits(out, rng, kind); }
+    }
     let mut k_budget = 150 * scale;
     for _ in 0..60 * scale { family(out, rng, &mut k_budget); }
     for _ in 0..40 * scale { gate(out, rng); }
